@@ -302,6 +302,29 @@ func runC16(r *an.Run) {
 				}
 				mustPass(o, f, callee, f.Calls(an.CalleeNamed(callee), false), an.OkErrNil, f.StrictSuccessReturnsOrNilPtr())
 			}
+			// the SQL builder hands out a payment only after SetState succeeded
+			for _, f := range p.Funcs(false, "payments/db") {
+				if f.Lit != nil {
+					continue
+				}
+				cs := f.Calls(an.CalleeIs(pd+"MPPayment.SetState"), false)
+				if len(cs) == 0 {
+					continue
+				}
+				o.Site("%s derives the payment state (%d calls)", f.ID, len(cs))
+				mustPass(o, f, "SetState", cs, an.OkErrNil, f.StrictSuccessReturnsOrNilPtr())
+			}
+			// what is summed: the amount the receiver gets on each non-failed attempt
+			for _, v := range sa.Graph().V {
+				as, ok := v.Node.(*ast.AssignStmt)
+				if !ok || as.Tok != token.ADD_ASSIGN {
+					continue
+				}
+				want := map[string]string{"sent": "$elem($recv.HTLCs).Route.ReceiverAmt()", "fees": "$elem($recv.HTLCs).Route.TotalFees()"}[an.Text(as.Lhs[0])]
+				if c := sa.Canon(as.Rhs[0]); want != "" && c != want {
+					o.FailAt(sa.ID+"#operand-"+an.Text(as.Lhs[0]), sa.Where(as.Pos()), "%s accumulates %s, expected %s", an.Text(as.Lhs[0]), c, want)
+				}
+			}
 			reach := p.Reachable(pd + "fetchPaymentWithCompleteData")
 			if !reach[pd+"MPPayment.SetState"] && !reach[pd+"MPPayment.setState"] {
 				o.FailAt(pd+"fetchPaymentWithCompleteData#setState", "", "the SQL loader no longer reaches setState")
@@ -474,6 +497,13 @@ func runC16(r *an.Run) {
 							o.Site("%s: %s evaluated on %s defined by %v", g.fn, gname, id.Name, defs)
 							if len(defs) == 0 {
 								o.FailAt(g.fn+"#gate-provenance-"+gname, gsite.Where(), "%s is evaluated on %s, which is not defined solely by the payment loaders of this transaction", gname, id.Name)
+							}
+							// and loaded in this very run of the closure: a value that
+							// survives a retried transaction is not the stored payment
+							if lds := lf.Calls(an.CalleeIs(defs...), false); len(lds) > 0 {
+								mustPass(o, lf, "the payment loader", lds, an.OkErrNil, []an.Site{gsite})
+							} else if len(defs) > 0 {
+								o.FailAt(g.fn+"#gate-loaded-elsewhere-"+gname, gsite.Where(), "%s is evaluated on %s, which is loaded outside the transaction closure", gname, id.Name)
 							}
 							for _, d := range defs {
 								okd := false
